@@ -279,7 +279,7 @@ pub static SYNTHETIC: Alphabet = Alphabet {
     matra: &[(0x0301, 0x0302)],
     prebase: &[0x0030, 0x0031, 0x0032],
     marks: &[(0x0301, 0x0302)],
-    special: &[0x0061, 0x0062, 0x0063, 0x0064, 0x0065, 0x0066, 0x0067, 0x0068, 0x0069, 0x002F, 0x0020, 0x25CC, 0x0031],
+    special: &[0x0061, 0x0062, 0x0063, 0x0064, 0x0065, 0x0066, 0x0067, 0x0068, 0x0069, 0x002F, 0x0020, 0x25CC, 0x0031, 0xFB00, 0xFB01, 0xFB02, 0xFB03, 0xFB04, 0xFEFB],
 };
 
 pub fn alphabet_for(tag: &[u8; 4]) -> &'static Alphabet {
